@@ -292,7 +292,7 @@ theorem OrdInv.step {st0 : Core} (hwf : TreeWF st0) {s : Core} (f : Frame) (fs :
       | false => exact expandCase x r hr rfl e1 e2
       | true => exact exemptCase x r rfl e1 e2
   | run c a late =>
-    have e2 : (stepFrame s (Frame.run c a late)).2 = closureFrames c := by
+    have e2 : (stepFrame s (Frame.run c a late)).2 = closureFrames s.cur c := by
       by_cases hn : c.nested = true
       · simp only [stepFrame, hn, if_true]
       · simp only [stepFrame, hn, if_false, Bool.false_eq_true]
@@ -302,17 +302,19 @@ theorem OrdInv.step {st0 : Core} (hwf : TreeWF st0) {s : Core} (f : Frame) (fs :
       · simp only [stepFrame, hn, if_false, Bool.false_eq_true, logEv_log]
     rw [e2]
     -- what the closure owns is dropped by an exempt frame
-    have hex : ∀ g, g ∈ closureFrames c → fOwner g = none := by
+    have hex : ∀ g, g ∈ closureFrames s.cur c → fOwner g = none := by
       intro g hg
       unfold closureFrames at hg
       split at hg
-      · simp only [List.mem_singleton] at hg; subst hg; rfl
+      · split at hg
+        · cases hg
+        · simp only [List.mem_singleton] at hg; subst hg; rfl
       · cases hg
-    have hstack : (closureFrames c ++ fs).Pairwise (Rfr st0) :=
+    have hstack : (closureFrames s.cur c ++ fs).Pairwise (Rfr st0) :=
       List.pairwise_append.mpr ⟨pairwise_of_all (fun x hx y _ => Rfr_of_none_left (hex x hx)), htail,
         fun g hg g' _ => Rfr_of_none_left (hex g hg)⟩
     have ext : ∀ (l : List Nat), (∀ a', a' ∈ l → ∀ g, g ∈ fs → Rlog st0 a' g) →
-        ∀ a', a' ∈ l → ∀ g, g ∈ closureFrames c ++ fs → Rlog st0 a' g := by
+        ∀ a', a' ∈ l → ∀ g, g ∈ closureFrames s.cur c ++ fs → Rlog st0 a' g := by
       intro l hl a' ha' g hg
       rcases List.mem_append.mp hg with hg | hg
       · exact Rlog_of_none (hex g hg)
